@@ -415,9 +415,10 @@ def _check_main(ctx, res) -> None:
         a = n.ast
         if isinstance(a, ast.Delete):
             for t in a.targets:
-                if isinstance(t, ast.Subscript) and is_self_attr(t.value) and isinstance(t.slice, ast.Name) and t.slice.id == rparam:
+                tv = common._subst_single_locals(inv.node, t.value) if isinstance(t, ast.Subscript) else None  # `m = self.module_map ... del m[resource]`
+                if isinstance(t, ast.Subscript) and is_self_attr(tv) and isinstance(t.slice, ast.Name) and t.slice.id == rparam:
                     acts["delete"] = n
-                    map_attr = t.value.attr
+                    map_attr = tv.attr
         for c in calls_in(a):
             if is_self_attr(c.func):
                 callee = mc.methods.get(c.func.attr)
@@ -429,9 +430,9 @@ def _check_main(ctx, res) -> None:
                 pass
             if call_name(c) == "remove_resource" and c.args and isinstance(c.args[0], ast.Name) and c.args[0].id == rparam:
                 acts["unregister"] = n
-            if call_name(c) == "pop" and c.args and isinstance(c.args[0], ast.Name) and c.args[0].id == rparam and is_self_attr(c.func.value):
+            if call_name(c) == "pop" and c.args and isinstance(c.args[0], ast.Name) and c.args[0].id == rparam and is_self_attr(common._subst_single_locals(inv.node, c.func.value)):
                 acts["delete"] = n
-                map_attr = c.func.value.attr
+                map_attr = common._subst_single_locals(inv.node, c.func.value).attr
     missing = [k for k, v in acts.items() if v is None]
     if not missing:
         # all three on the cached path: each action must be reached from the 'in map' true edge on every normal path
